@@ -922,12 +922,12 @@ func (g *Gengine) ExecuteNSortMConcurrent(nSort, mConcurrent int, rb *builder.Ru
 		if bx {
 			g.addResult(rule.RuleName, v)
 		}
-		if b {
-			if e != nil {
+		if e != nil {
+			if b {
 				eMsg = append(eMsg, fmt.Sprintf("%+v", e))
+			} else {
+				return e
 			}
-		} else {
-			return e
 		}
 	}
 
@@ -1021,12 +1021,12 @@ func (g *Gengine) ExecuteNConcurrentMSort(nConcurrent, mSort int, rb *builder.Ru
 		if bx {
 			g.addResult(rule.RuleName, v)
 		}
-		if b {
-			if e != nil {
+		if e != nil {
+			if b {
 				eMsg = append(eMsg, fmt.Sprintf("%+v", e))
+			} else {
+				return e
 			}
-		} else {
-			return e
 		}
 	}
 
@@ -1177,12 +1177,12 @@ func (g *Gengine) ExecuteSelectedNSortMConcurrent(nSort, mConcurrent int, rb *bu
 		if bx {
 			g.addResult(rule.RuleName, v)
 		}
-		if b {
-			if e != nil {
+		if e != nil {
+			if b {
 				eMsg = append(eMsg, fmt.Sprintf("%+v", e))
+			} else {
+				return e
 			}
-		} else {
-			return e
 		}
 	}
 
@@ -1297,12 +1297,12 @@ func (g *Gengine) ExecuteSelectedNConcurrentMSort(nConcurrent, mSort int, rb *bu
 		if bx {
 			g.addResult(rule.RuleName, v)
 		}
-		if b {
-			if e != nil {
+		if e != nil {
+			if b {
 				eMsg = append(eMsg, fmt.Sprintf("%+v", e))
+			} else {
+				return e
 			}
-		} else {
-			return e
 		}
 	}
 
